@@ -164,6 +164,15 @@ def single_call_jobs(ctx):
                         jobs.append(dict(kind="single", fn=label, base=row["name"], vkey=vkey, dtype=dtype,
                                          bad=bad, tag=tag, seed=ctx.seed * 1000003 + k,
                                          zero_diag=(rep == 2)))
+                # the copy=False utilities once more on "almost symmetric" float matrices, as they come
+                # out of floating-point pipelines: W[j,i] = W[i,j] +- 1e-9, with half of the values next
+                # to a boundary of the 5-decimal rounding these utilities document (k.5e-5 +- 1e-9) -
+                # inputs that reach the clean-up branches of autofix and friends
+                if row.get("inplace") and dtype == "float":
+                    for rep in range(3 if ctx.quick else 12):
+                        k += 1
+                        jobs.append(dict(kind="single", fn=label, base=row["name"], vkey=vkey, dtype=dtype,
+                                         bad=None, tag="nearsym", seed=ctx.seed * 1000003 + k, nearsym=1))
     return jobs
 
 
@@ -187,6 +196,20 @@ def _exec_single(job):
                         a[zi[t], zj[t]] = rng.choice([-1e-12, 1e-13, -3e-11])
                         if (args[i] == args[i].T).all():
                             a[zj[t], zi[t]] = a[zi[t], zj[t]]
+                args[i] = a
+    if job.get("nearsym"):
+        for i, a in enumerate(args):
+            if isinstance(a, np.ndarray) and a.ndim == 2 and a.shape[0] == a.shape[1] and a.dtype.kind == "f":
+                a = (a + a.T) / 2
+                m = len(a)
+                for x in range(m):
+                    for y in range(x + 1, m):
+                        if a[x, y] != 0:
+                            if rng.random() < 0.5:
+                                a[x, y] = np.sign(a[x, y]) * (rng.randint(1000, 99999) * 1e-5 + 0.5e-5)
+                            e = rng.choice([1e-9, 3e-10, 1e-12])
+                            a[y, x] = a[x, y] + e
+                            a[x, y] -= e
                 args[i] = a
     if job["dtype"] == "bool":
         # boolean adjacency matrices (e.g. W > thr) are a natural caller-side type: every integer
